@@ -91,6 +91,7 @@ opkinds! {
     // ---- product scope (C20) ----
     DropArena = 70, 0;
     PresentForeign = 71, 1; // (hi) present own handle hi to the other arena's set
+    Lend = 72, 2;           // (hi, b): handle hi of the OTHER arena moves into node b of this arena's heap
 }
 
 #[derive(Clone, Copy, PartialEq, Eq, Hash, PartialOrd, Ord)]
